@@ -69,12 +69,57 @@ def _rules_named(text):
     return set(re.findall(r"R-[A-Z0-9]+", text or ""))
 
 
+def _copy_tree(repo, tmp):
+    import shutil, subprocess
+    files = subprocess.run(["git", "-C", repo, "ls-files"], capture_output=True, text=True).stdout.split()
+    for fn in files:
+        src = os.path.join(repo, fn)
+        if os.path.isfile(src) and (fn.endswith((".c", ".h", ".am", ".ac", ".in")) or "/" not in fn):
+            os.makedirs(os.path.dirname(os.path.join(tmp, fn)) or tmp, exist_ok=True)
+            shutil.copy(src, os.path.join(tmp, fn))
+
+
+def _one_control(job):
+    """worker (own process): apply one seeded change / reverted fix to a scratch copy and run the property's rules on it"""
+    import shutil, subprocess, tempfile
+    pid, repo, entry, want, kind, payload = job
+    tmp = tempfile.mkdtemp(prefix="qsa-mut-", dir="/var/tmp")
+    try:
+        _copy_tree(repo, tmp)
+        if kind == "patch":
+            r = subprocess.run(["patch", "-p1", "--batch", "--silent", "-d", tmp, "-i", payload], capture_output=True, text=True)
+            if r.returncode != 0:
+                entry["result"] = "skipped: patch does not apply to the current tree"
+                return entry
+        else:
+            for dtxt in payload:
+                # strict reverse application (no fuzz, no "unreversed patch" guessing): a fix that later commits built upon is skipped
+                r = subprocess.run(["git", "apply", "-R", "--whitespace=nowarn", "-"], input=dtxt, capture_output=True, text=True, cwd=tmp)
+                if r.returncode != 0:
+                    entry["result"] = "skipped: the fix can no longer be reverted on the current tree"
+                    return entry
+        try:
+            o = run_property(pid, "quick", tmp, 0, fixtures=False)
+            got = {v.rule for v in o["violations"]}      # listed known findings do not count: the change must add a report
+            entry["reported_rules"] = sorted(got)
+            if kind == "patch":
+                entry["result"] = "detected" if (got & want if want else got) else "NOT DETECTED"
+            else:
+                entry["result"] = "detected" if (got & want) else "NOT DETECTED"
+        except AnalysisBroken as ex:
+            entry["result"] = "analysis broken on the %s: %s" % ("mutant" if kind == "patch" else "reverted tree", ex)
+    finally:
+        shutil.rmtree(tmp, ignore_errors=True)
+    return entry
+
+
 def mutation_controls(pid, repo):
     """thorough tier: every kept seeded change that this property's rules are recorded to catch is applied to a scratch copy of
     the current working tree and the rules are run on the copy; the control passes when the recorded rule reports a violation.
-    A patch that no longer applies to the current tree is skipped (the tree moved on), never counted as a failure."""
-    import glob, shutil, subprocess, tempfile
-    out = []
+    A patch that no longer applies to the current tree is skipped (the tree moved on), never counted as a failure.  The controls are
+    independent of each other and run in a pool of worker processes."""
+    import glob
+    jobs = []
     for meta_p in sorted(glob.glob(os.path.join(VERIF, "seeded", "*", "meta.json"))):
         m = json.load(open(meta_p))
         cb = m.get("caught_by", "")
@@ -87,39 +132,23 @@ def mutation_controls(pid, repo):
             continue
         want = _rules_named(cb)
         patch = os.path.join(os.path.dirname(meta_p), "patch.diff")
-        tmp = tempfile.mkdtemp(prefix="qsa-mut-", dir="/var/tmp")
-        entry = {"seed": m["id"], "expected_rules": sorted(want)}
-        try:
-            files = subprocess.run(["git", "-C", repo, "ls-files"], capture_output=True, text=True).stdout.split()
-            for fn in files:
-                src = os.path.join(repo, fn)
-                if os.path.isfile(src) and (fn.endswith((".c", ".h", ".am", ".ac", ".in")) or "/" not in fn):
-                    os.makedirs(os.path.dirname(os.path.join(tmp, fn)) or tmp, exist_ok=True)
-                    shutil.copy(src, os.path.join(tmp, fn))
-            r = subprocess.run(["patch", "-p1", "--batch", "--silent", "-d", tmp, "-i", patch], capture_output=True, text=True)
-            if r.returncode != 0:
-                entry["result"] = "skipped: patch does not apply to the current tree"
-                out.append(entry)
-                continue
-            try:
-                o = run_property(pid, "quick", tmp, 0, fixtures=False)
-                got = {v.rule for v in o["violations"]}
-                entry["reported_rules"] = sorted(got)
-                entry["result"] = "detected" if (got & want if want else got) else "NOT DETECTED"
-            except AnalysisBroken as ex:
-                entry["result"] = "analysis broken on the mutant: %s" % ex
-        finally:
-            shutil.rmtree(tmp, ignore_errors=True)
-        out.append(entry)
-    out.extend(revert_controls(pid, repo))
-    return out
+        jobs.append((pid, repo, {"seed": m["id"], "expected_rules": sorted(want)}, want, "patch", patch))
+    jobs.extend(revert_jobs(pid, repo))
+    if not jobs:
+        return []
+    import multiprocessing
+    nproc = max(1, min(6, len(jobs), (os.cpu_count() or 2) // 2))
+    if nproc == 1:
+        return [_one_control(j) for j in jobs]
+    with multiprocessing.get_context("fork").Pool(nproc) as pool:
+        return pool.map(_one_control, jobs, chunksize=1)
 
 
-def revert_controls(pid, repo):
+def revert_jobs(pid, repo):
     """thorough tier: every genuine defect that was repaired in /repo (the 'fixed:' entries of known_findings.json naming this property)
     is re-introduced on a scratch copy by applying its fix commit in reverse; the rule recorded for it must report it again.  A fix
     whose reverse no longer applies (later commits touched the same lines) is skipped."""
-    import re, shutil, subprocess, tempfile
+    import re, subprocess
     out = []
     if not os.path.isdir(os.path.join(repo, ".git")) and not os.path.isfile(os.path.join(repo, ".git")):
         return out
@@ -144,33 +173,7 @@ def revert_controls(pid, repo):
                 diffs.append(d2.stdout)
         diffs.append(diff.stdout)
         entry = {"seed": "revert of fix %s%s" % (h, "".join(" + %s" % x for x in more)), "expected_rules": sorted(want)}
-        tmp = tempfile.mkdtemp(prefix="qsa-rev-", dir="/var/tmp")
-        try:
-            files = subprocess.run(["git", "-C", repo, "ls-files"], capture_output=True, text=True).stdout.split()
-            for fn in files:
-                src = os.path.join(repo, fn)
-                if os.path.isfile(src) and (fn.endswith((".c", ".h", ".am", ".ac", ".in")) or "/" not in fn):
-                    os.makedirs(os.path.dirname(os.path.join(tmp, fn)) or tmp, exist_ok=True)
-                    shutil.copy(src, os.path.join(tmp, fn))
-            # strict reverse application (no fuzz, no "unreversed patch" guessing): a fix that later commits built upon is skipped
-            for dtxt in diffs:
-                r = subprocess.run(["git", "apply", "-R", "--whitespace=nowarn", "-"], input=dtxt, capture_output=True, text=True, cwd=tmp)
-                if r.returncode != 0:
-                    break
-            if r.returncode != 0:
-                entry["result"] = "skipped: the fix can no longer be reverted on the current tree"
-                out.append(entry)
-                continue
-            try:
-                o = run_property(pid, "quick", tmp, 0, fixtures=False)
-                got = {v.rule for v in o["violations"]}          # listed known findings do not count: the revert must add a report
-                entry["reported_rules"] = sorted(got)
-                entry["result"] = "detected" if (got & want) else "NOT DETECTED"
-            except AnalysisBroken as ex:
-                entry["result"] = "analysis broken on the reverted tree: %s" % ex
-        finally:
-            shutil.rmtree(tmp, ignore_errors=True)
-        out.append(entry)
+        out.append((pid, repo, entry, want, "revert", diffs))
     return out
 
 
